@@ -569,8 +569,8 @@ def _whole_line_ownership_rule(ctx, res) -> None:
         if has_line and other:
             return True
         for c in ast.walk(t):
-            if isinstance(c, ast.Call) and is_self_attr(c.func) and cls is not None:
-                m = idx.find_method(cls.qualname, c.func.attr)
+            if isinstance(c, ast.Call) and ((is_self_attr(c.func) and cls is not None) or isinstance(c.func, ast.Name)):
+                m = idx.find_method(cls.qualname, c.func.attr) if is_self_attr(c.func) else idx.functions.get(f"{f.unit.modname}.{c.func.id}")
                 if m is None:
                     continue
                 ps = m.call_params()
